@@ -475,7 +475,10 @@ class EpiSim(object):
                 rec["rebalancing"] = rebal_record(rebalancing)
         broker.rebalance = wrapped
 
-    def do_reset(self, op):
+    def do_reset(self, op, call=None, reraise=False):
+        """call: the callable to invoke instead of h.env.reset (backtest driver: the environment's own
+        bound reset, reached through a wrapper installed on the instance); reraise: hand the exception
+        back to the caller after recording it."""
         h = self.handles[op.get("env", 0)]
         if op.get("np_seed") is not None:
             np.random.seed(op["np_seed"] % (2 ** 32))
@@ -491,12 +494,14 @@ class EpiSim(object):
                 kwargs["fold"] = op["fold"]
             if op.get("episode_length") is not None:
                 kwargs["episode_length"] = op["episode_length"]
-            obs = h.env.reset(**kwargs)
+            obs = (call or h.env.reset)(**kwargs)
         except Exception as e:
             site, chain = _raise_site(e.__traceback__)
             rec.update({"exc": type(e).__name__, "msg": str(e)[:300], "site": site})
             rec["end_seq"] = self.sink.next_seq()
             h.episodes.append({"reset": rec, "steps": [], "failed": True, "ended": True})
+            if reraise:
+                raise
             return
         self.wrap_rebalance(h)
         hq, hm = h.holdings()
@@ -505,8 +510,9 @@ class EpiSim(object):
                     "end_seq": self.sink.next_seq()})
         h.episodes.append({"reset": rec, "steps": [], "failed": False, "ended": bool(rec["done"])})
         self.stats["episodes"] += 1
+        return obs
 
-    def do_step(self, op):
+    def do_step(self, op, call=None, reraise=False):
         h = self.handles[op.get("env", 0)]
         if h.env.broker is None:
             return      # never reset: nothing to step (script shrunk)
@@ -522,12 +528,14 @@ class EpiSim(object):
         self.api.append(rec)
         self.sink.records.append(rec)
         self.stats["steps"] += 1
+        raised = None
         try:
-            obs, reward, done, info = h.env.step(action)
+            obs, reward, done, info = (call or h.env.step)(action)
         except Exception as e:
             site, chain = _raise_site(e.__traceback__)
             rec.update({"exc": type(e).__name__, "msg": str(e)[:300], "site": site, "chain": chain})
             obs = reward = done = info = None
+            raised = e
         hq, hm = h.holdings()
         rec.update({"obs": canon(obs) if not isinstance(obs, IState) else "state",
                     "reward": (float(reward) if reward is not None else None),
@@ -543,12 +551,99 @@ class EpiSim(object):
             ep["steps"].append(rec)
             if rec.get("done") or rec.get("exc") == "EndOfEpisodeError":
                 ep["ended"] = True
+        if raised is not None and reraise:
+            raise raised
+        return obs, reward, done, info
+
+    def do_backtest(self, reset_op, step_ops):
+        """The same reset + step calls, made by the library's own episode driver TradingEnv.backtest with a
+        scripted policy.  reset and step are wrapped on the instance so that every call is recorded exactly
+        as in the plain driver; steps left over once the driver returns (or aborts) are made directly."""
+        from tradingenv.policy import AbstractPolicy
+        h = self.handles[reset_op.get("env", 0)]
+        queue = list(step_ops)
+        sim = self
+        orig_reset, orig_step = h.env.reset, h.env.step
+
+        class _OutOfScript(Exception):
+            pass
+
+        class Scripted(AbstractPolicy):
+            cur = None
+
+            def act(self, state):
+                if not queue:
+                    raise _OutOfScript()
+                self.cur = queue.pop(0)
+                return self.cur
+
+        pol = Scripted()
+
+        def reset_w(fold=None, episode_length=None):
+            def call(**kw):
+                # the driver's own arguments are what reaches the environment
+                a = {}
+                if fold is not None:
+                    a["fold"] = fold
+                if episode_length is not None:
+                    a["episode_length"] = episode_length
+                return orig_reset(**a)
+            return sim.do_reset(reset_op, call=call, reraise=True)
+
+        def step_w(received):
+            # the record shows the action the policy returned for this step; the environment gets whatever
+            # the driver actually passes on (the same object unless the driver is wrong)
+            def call(_scripted):
+                if isinstance(received, dict) and "action" in received:
+                    return orig_step(h.resolve_action(received["action"]))
+                return orig_step(received)
+            return sim.do_step(pol.cur, call=call, reraise=True)
+
+        h.env.reset, h.env.step = reset_w, step_w
+        self.fault("episode_driven_by_backtest")
+        try:
+            kwargs = {}
+            if reset_op.get("fold") is not None:
+                kwargs["fold"] = reset_op["fold"]
+            if reset_op.get("episode_length") is not None:
+                kwargs["episode_length"] = reset_op["episode_length"]
+            h.env.backtest(policy=pol, **kwargs)
+        except _OutOfScript:
+            pass        # the script abandons the episode here
+        except Exception as e:
+            # already recorded by the reset / step record it came from; anything else is the driver's own failure
+            last = self.api[-1] if self.api else None
+            if last is None or last.get("exc") != type(e).__name__:
+                self.sink.records.append({"seq": self.sink.next_seq(), "kind": "driver_exc", "env": h.tag, "exc": type(e).__name__,
+                                          "msg": str(e)[:300], "site": _raise_site(e.__traceback__)[0]})
+        finally:
+            del h.env.reset
+            del h.env.step
+        for op in queue:
+            self.do_step(op)
 
     def run(self):
         self.build()
-        for k, op in enumerate(self.sc["script"]):
+        script = self.sc["script"]
+        consumed = set()
+        for k, op in enumerate(script):
+            if k in consumed:
+                continue
             self.stats["ops"] += 1
             name = op["op"]
+            if name == "reset" and self.sc.get("driver") == "backtest":
+                # the episode's steps: the step ops of this environment that follow, up to its next reset,
+                # provided nothing else is scheduled in between (otherwise the plain driver is used)
+                j = k + 1
+                steps = []
+                while j < len(script) and script[j]["op"] == "step" and script[j].get("env", 0) == op.get("env", 0):
+                    steps.append(script[j])
+                    j += 1
+                if j == len(script) or script[j]["op"] == "reset":
+                    consumed.update(range(k + 1, j))
+                    self.stats["ops"] += len(steps)
+                    self.do_backtest(op, steps)
+                    continue
             if name == "reset":
                 self.do_reset(op)
             elif name == "step":
